@@ -33,6 +33,14 @@ Sum(S, names) == IF names = <<>> THEN 0 ELSE S[Head(names)] + Sum(S, Tail(names)
 (* a * num / den without leaving 32 bits (a < 2^31, num <= 1000, den >= 100) *)
 MulDiv(a, num, den) == (a \div den) * num + (((a % den) * num) \div den)
 
+(* a * r / 100000 for a ratio r in 0..100000 (five decimal places), exactly, inside 32 bits (|a| below 10^9):            *)
+(* a = qa * 10^5 + ra,  ra = ra1 * 1000 + ra0,  ra * r = X * 1000 + Y  with X = ra1 * r, Y = ra0 * r                      *)
+MulRatioPos(a, r) ==
+  LET qa == a \div 100000  ra == a % 100000
+      X == (ra \div 1000) * r  Y == (ra % 1000) * r
+  IN qa * r + (X \div 100) + (((X % 100) * 1000 + Y) \div 100000)
+MulRatio(a, r) == IF a >= 0 THEN MulRatioPos(a, r) ELSE 0 - MulRatioPos(0 - a, r)
+
 Holds(e, S, R, status) ==
   LET v == S[e.line] IN
   CASE e.op = "add" -> LET t == Sum(S, e.args) IN
@@ -47,7 +55,7 @@ Holds(e, S, R, status) ==
                        ELSE Near(v, MulDiv(S[e.args[1]], e.num, e.den), e.tol + 1)
     [] e.op = "mulk" -> v = S[e.args[1]] * e.k            \* the count is held in hundredths like every line
     [] e.op = "mulcnt" -> Near(v, MulDiv(S[e.args[2]], S[e.args[1]], 100), e.tol)       \* count (in hundredths) x amount
-    [] e.op = "mull" -> Near(v, MulDiv(S[e.args[1]], R[e.args[2]], 100000), e.tol + 1)
+    [] e.op = "mull" -> Near(v, MulRatio(S[e.args[1]], R[e.args[2]]), e.tol + 1)
     [] e.op = "min" -> Near(v, Min(S[e.args[1]], S[e.args[2]]), e.tol)
     [] e.op = "max" -> Near(v, Max(S[e.args[1]], S[e.args[2]]), e.tol)
     [] e.op = "same" -> Near(v, S[e.args[1]], e.tol)
